@@ -19,6 +19,47 @@ where
       else if op == 4 then some (gt || eq) else if op == 5 then some lt else if op == 6 then some (lt || eq) else none
     | _, _, _ => none
 
+/-- A float operand of a comparison with the IEEE special values: the value model proper (`Val.float`) holds
+finite fixed-point numbers only; the special values exist for Compare alone. -/
+inductive FClass
+  | nan | ninf | fin (fx : Int) | pinf
+deriving Repr, DecidableEq, Inhabited
+
+/-- IEEE-754 `<`: false whenever a NaN is involved. -/
+def FClass.lt : FClass → FClass → Bool
+  | .nan, _ => false
+  | _, .nan => false
+  | .ninf, .ninf => false
+  | .ninf, _ => true
+  | _, .ninf => false
+  | .pinf, _ => false
+  | _, .pinf => true
+  | .fin a, .fin b => decide (a < b)
+
+/-- IEEE-754 `==`: a NaN equals nothing, itself included. -/
+def FClass.eq : FClass → FClass → Bool
+  | .nan, _ => false
+  | _, .nan => false
+  | .ninf, .ninf => true
+  | .pinf, .pinf => true
+  | .fin a, .fin b => a == b
+  | _, _ => false
+
+/-- `cmpFloat` (static.go): Go's six native operators on float64, special values included. -/
+def ieeeCmp (op : Op) (l r : FClass) : Bool :=
+  let eq := FClass.eq l r
+  let lt := FClass.lt l r
+  let gt := FClass.lt r l
+  if op == 1 then eq else if op == 2 then !eq else if op == 3 then gt
+  else if op == 4 then (gt || eq) else if op == 5 then lt else if op == 6 then (lt || eq) else false
+
+/-- StaticInspector.Compare on a float source holding `l` (by value or through a non-nil pointer), the operand
+parsed by strconv.ParseFloat to `r` (`none`: syntax or range error — the result is left untouched). -/
+def staticCmpSpecial (op : Op) (l : FClass) (r : Option FClass) : CmpOut :=
+  match r with
+  | none => .untouched
+  | some r => .set (ieeeCmp op l r)
+
 def staticCmpTwo (op : Op) (l r : Val) : Bool :=
   match valEq l r with
   | some eq => if op == 1 then eq else if op == 2 then !eq else false
